@@ -832,7 +832,9 @@ def run_c13(ctx):
         k = key
         import re as _re
         mj = _re.search(r'join=(\d+)', m.get('op') or '')
-        if lobe_known(m, conf):
+        if conf and bits >= 32:
+            k = OVERFLOW_KEY   # beyond 32-bit differences the int64 products of the sweep wrap: whatever else happened in the call is incidental
+        elif lobe_known(m, conf):
             k = LOBE_KEY
         elif micro_known(m, conf):
             k = MICRO_KEY
@@ -1526,7 +1528,7 @@ PROPS = {
     'C03': {
         'run': run_c03, 'level': 'proof',
         'trust': ['totality theorems are about the Gallina models of the leaf routines (Trim, Minkowski, PointInPolygon, StripDuplicates, SimplifyPath, precision check), tied to the code by the correspondence checks of C14/C15/C16/C08',
-                  'PARTIAL: for the sweep, ClipperOffset and the rectangle clipper "terminates, does not panic, reports success" is OBSERVED, not proved: every exported entry point is driven under recover, a 20 s wall-clock limit and a success-flag check on hostile inputs; nil dereferences and unbounded loops inside the sweep are runtime behaviours no model here exhibits'],
+                  'PARTIAL: for the sweep, ClipperOffset and the rectangle clipper "terminates, does not panic, reports success" is OBSERVED, not proved: every exported entry point is driven under recover, a 90 s wall-clock limit and a success-flag check on hostile inputs; nil dereferences and unbounded loops inside the sweep are runtime behaviours no model here exhibits'],
         'rule': 'hostile path sets (nil, empty, empty paths, 1-2 points, repeated points, all-horizontal, all-collinear, out-and-back, on-rectangle-boundary, coincident polygons, coordinates up to 2^29) x 26 API groups x clip types 0..6 x fill rules 0..5 x precisions -9..12 x deltas 0..1e7 both signs x join types 0..4 x end types 0..5 x empty/inverted rectangles; evaluations = individual API calls; a case is non-trivial always (every case drives all 26 API groups)',
         'assumes': ['D-API inputs are scaled so that quantised magnitudes stay within 2^29 (beyond it int64 products wrap: recorded under C13)'],
     },
@@ -1620,7 +1622,7 @@ PROPS = {
 _K3DEC = "K3: clipper_base.go:isContributingClosed / isContributingOpen are translated from the current source on every run (harness/decisions.go: switch/if/return/local variables, continuation-passing) into Gen/Decisions_gen.v and proved equal to 'the expected region differs across the edge' / want_open for every fill rule, clip type and wind count (Model/DecisionProofs.v); the translator is trusted, untranslatable code breaks the theorem"
 _K3WC = 'K3: the wind-count statements of setWindCountForClosedPathEdge and intersectEdges are translated (harness/fragments.go) into Gen/Windcount_gen.v and proved to maintain the left/right encoding of windCount (Model/WindcountProofs.v); the global sweep invariant (ordered active edge list, every crossing found) is NOT proved'
 _K3NP = "K3: the tail of intersectEdges that decides whether two crossing non-hot edges start a new output polygon is translated (harness/newpoly.go; a call of addLocalMinPoly read as true, a bare return as false) into Gen/NewPoly_gen.v and proved to say 'both edges are contributing' for edges of the same path set (Model/NewPolyProofs.v)"
-_K3RECT = "K3: rect_clip.go:getLocation, headingClockwise, getAdjacentLocation, areOpposites, getEdgesForPt are translated on every run (harness/pure.go) into Gen/RectLeaf_gen.v and proved against their specifications (Model/RectLeafProofs.v); Go's % is read as Z.modulo (operands are non-negative in the stated ranges); the translator is trusted"
+_K3RECT = "K3: rect_clip.go:getLocation, headingClockwise, getAdjacentLocation, areOpposites, getEdgesForPt, and the five decisions of getNextLocation (the stay condition of each outside state, the classification of the first point that left it — proved to test the OPPOSITE side first —, the classification from Inside; cut out of the source text and rewritten as functions of (pt, rec): any other shape of that function is refused) are translated on every run (harness/pure.go) into Gen/RectLeaf_gen.v and proved against their specifications (Model/RectLeafProofs.v); Go's % is read as Z.modulo (operands are non-negative in the stated ranges); the translator is trusted"
 for _pid, _extra in (('C01', [_K3DEC, _K3WC, _K3NP]), ('C19', [_K3DEC, _K3NP]), ('C09', [_K3DEC]), ('C06', [_K3RECT]), ('C11', [_K3RECT])):
     PROPS[_pid]['trust'] = list(PROPS[_pid]['trust']) + _extra
 
